@@ -255,7 +255,15 @@ QBld == <<
   BldDecl(32, <<AsSeq({31, 22, 21, 10, 9, 8})>>, << ArrFld("unat", 8, 0, 0, 3, <<12>>, "rw"), Scalar("uarb", 4, 8, "r") >>, <<>>),
   BldDecl(20, <<AsSeq({19, 6})>>, << ArrFld("enum", 2, 1, 0, 3, <<9>>, "rw"), Scalar("uarb", 3, 3, "rw") >>, <<EnumExh("E2", 2)>>),
   BldDecl(64, <<>>, << Scalar("unat", 8, 16, "rw"), ArrFld("inat", 16, 0, 0, 3, <<24>>, "rw"), Scalar("unat", 8, 40, "rw") >>, <<>>),
-  BldDecl(16, <<AsSeq({15, 5})>>, << Scalar("bool", 1, 5, "w"), LA(<< <<0, 0>>, <<3, 3>> >>, 3, 6) >>, <<>>)
+  BldDecl(16, <<AsSeq({15, 5})>>, << Scalar("bool", 1, 5, "w"), LA(<< <<0, 0>>, <<3, 3>> >>, 3, 6) >>, <<>>),
+  (* byte (and wider native) arrays declared through LISTS whose interleaved elements tile the whole base: as many bytes as
+     the storage has, but not the storage's byte image *)
+  BldDecl(16, <<>>, << LA(<< <<0, 3>>, <<8, 11>> >>, 2, 4) >>, <<>>),
+  BldDecl(32, <<AsSeq({31, 0})>>, << LA([k \in 1..8 |-> <<4 * (k - 1), 4 * (k - 1)>>], 4, 1) >>, <<>>),
+  BldDecl(64, <<>>, << LA(<< <<0, 7>>, <<32, 39>> >>, 4, 8) >>, <<>>),
+  BldDecl(32, <<>>, << LA(<< <<8, 15>>, <<0, 7>> >>, 2, 16) >>, <<>>),
+  BldDecl(32, <<>>, << ArrFld("unat", 8, 0, 0, 4, <<>>, "rw") >>, <<>>),
+  BldDecl(128, <<>>, << ArrFld("unat", 16, 0, 0, 8, <<>>, "rw") >>, <<>>)
   >>
 
 ---------------------------------------------------------------------------
